@@ -37,10 +37,14 @@ RULE = ('tables of 2-7 columns (quick: mostly 3-5) x 60-120 rows from a random c
         'continuous ones, re-drawn until the maximum spanning tree of |tau-a| is not one of |tau-b|; tables 9-14 of '
         'every run) / neareq (rank tables in which the two candidate edges for attaching a column have |tau-b| '
         '1e-9..6e-8 apart - concordance counts equal up to a few units, a tie group in one column - in all six column '
-        'orders; tables 15-20 of every run); every table is relabelled (values untouched): column labels default / '
+        'orders; tables 15-20 of every run) / antitone (one noisy column, one exactly decreasing and d-2 exactly '
+        'increasing functions of z => taus of exactly -1 and +1, fitted with truncated=1; tables 21-26 of every run, '
+        'all 24 column orders of a 4-column table in the search); every table is relabelled (values untouched): column labels default / '
         'RangeIndex / descending or shuffled strings / permuted or non-contiguous ints / tuples / mixed types / '
         'floats, row index default / DatetimeIndex / strings / offset ints / shuffled ints - all references are by '
-        'POSITION of the table as given; the truncation t in 1..d+1 is passed as fit(X, t), fit(X, truncated=t), fit(X=X, truncated=t) or omitted '
+        'POSITION of the table as given; the search also runs REFUSED fits (exactly monotone-related / duplicated / '
+        'constant columns: ValueError part-way through the tree build) on a never-fitted and on a previously fitted '
+        'instance and checks that a never-fitted model does not claim to be fitted; the truncation t in 1..d+1 is passed as fit(X, t), fit(X, truncated=t), fit(X=X, truncated=t) or omitted '
         '(then t = the default 3); the search additionally runs every t in 1..d+1 in every call form on small '
         'tables; about 1 fit in 3 is a SECOND fit of an object first fitted on another table (columns permuted / '
         'fresh same width / narrower / wider, own truncation) and is compared with a fresh object; the tau matrix '
@@ -75,8 +79,8 @@ FIT_TIMEOUT_S = 20       # a fit takes < 1 s; only a non-terminating loop gets h
 FIT_TIMEOUT_AFTER_FIRST_S = 3
 MAX_TIMEOUTS_PER_TYPE = 2
 _TIMEOUTS = {}
-MODES = ('plain', 'swap', 'cyclic', 'small', 'discrete', 'neardup', 'dup', 'indep', 'zero', 'ties', 'neareq')
-MODE_W = (5, 5, 3, 4, 3, 2, 1, 2, 5, 6, 3)
+MODES = ('plain', 'swap', 'cyclic', 'small', 'discrete', 'neardup', 'dup', 'indep', 'zero', 'ties', 'neareq', 'antitone')
+MODE_W = (5, 5, 3, 4, 3, 2, 1, 2, 5, 6, 3, 2)
 TYPES = ('center', 'direct', 'regular')
 
 
@@ -348,7 +352,32 @@ def near_equal_tables(rng, d=3):
 
 
 # ----------------------------------------------------------------------------- generators
+def antitone_columns(rng, d):
+    """One noisy column, one exactly DEcreasing function of z and d-2 exactly increasing ones: Kendall taus of
+    exactly -1 and +1 (the ends of the tau range).  Only the first tree can be estimated (fit with truncated=1)."""
+    rs = np.random.RandomState(rng.getrandbits(32))
+    n = rng.choice([40, 60, 90])
+    z = rs.randn(n)
+    inc = [z ** 3, 2 * z + 1, np.exp(z), np.arctan(z), z]
+    rng.shuffle(inc)
+    return [rng.uniform(0.3, 0.9) * z + rs.randn(n), -np.exp(z)] + inc[:d - 2]
+
+
+def antitone_tables(rng, d, k=None):
+    """column orders of one such table: all of them, or k random ones."""
+    import itertools
+    cols = antitone_columns(rng, d)
+    orders = list(itertools.permutations(range(d)))
+    if k is not None and k < len(orders):
+        orders = rng.sample(orders, k)
+    return [pd.DataFrame(np.column_stack([cols[i] for i in o]), columns=[f'c{i}' for i in range(d)]) for o in orders]
+
+
 def gen_table(rng, d, mode):
+    if mode == 'antitone':
+        if d >= 3:
+            return antitone_tables(rng, d, 1)[0]
+        mode = 'plain'
     if mode == 'neareq':
         if d >= 3:
             return rng.choice(near_equal_tables(rng, d))
@@ -747,7 +776,7 @@ def run(ctx, lean):
         if bad[name] is None:
             bad[name] = detail
 
-    near_eq = None
+    near_eq = anti = None
     for it in range(n_tables):
         d = pick_d(rng, deep)
         mode = rng.choices(MODES, MODE_W)[0]
@@ -758,7 +787,10 @@ def run(ctx, lean):
         elif it < 20:                   # every run: the six column orders of a table with two |tau| 1e-9..6e-8 apart
             d, mode = 3, 'neareq'
             near_eq = near_eq or near_equal_tables(rng, 3)
-        X = near_eq[it - 14] if 14 <= it < 20 else gen_table(rng, d, mode)
+        elif it < 26:                   # every run: taus of exactly -1 / +1, six column orders, first tree only
+            d, mode = 4, 'antitone'
+            anti = anti or antitone_tables(rng, 4, 6)
+        X = near_eq[it - 14] if 14 <= it < 20 else anti[it - 20] if 20 <= it < 26 else gen_table(rng, d, mode)
         # labels: every column scheme in turn on the first tables, then at random; values untouched
         X = relabel(rng, X, COL_SCHEMES[it % len(COL_SCHEMES)] if it < 27 else None,
                     ROW_SCHEMES[it % len(ROW_SCHEMES)] if it < 27 else None)
@@ -773,6 +805,8 @@ def run(ctx, lean):
         tied = any(a == b for a, b in zip(off, off[1:]))
         for vt in TYPES:
             form, t = pick_call(rng, d)     # t = the truncation the caller's call means
+            if mode == 'antitone':          # deeper trees cannot be estimated on exactly monotone columns
+                form, t = rng.choice(['keyword', 'positional']), 1
             ctx.count(f'call: {FORM_TEXT[form]}')
             ctx.count(f'type={vt}')
             ctx.count(f'd={d}')
@@ -1219,6 +1253,100 @@ def check_real(ctx, X, vt, t, counts, history=(), form='keyword'):
     return bool(probs)
 
 
+# ----------------------------------------------------------------------------- refused fits
+def refusal_tables(rng, deep):
+    """Tables on which the unchanged fit raises ValueError part-way through the tree build: exactly monotone-related
+    columns (tau = +-1), an exactly duplicated column, a constant column."""
+    for d in ((3, 4, 5) if not deep else (3, 4, 5, 6, 7)):
+        rs = np.random.RandomState(rng.getrandbits(32))
+        n = rng.choice([40, 50, 80])
+        z = rs.randn(n)
+        fs = [z, np.exp(z), -np.exp(z), z ** 3, 2 * z + 1, -z, np.arctan(z)]
+        order = list(rs.permutation(len(fs)))
+        yield 'monotone', np.column_stack([fs[i] for i in order[:d]])
+        yield 'monotone+noise', np.column_stack([fs[i] for i in order[:d - 1]] + [rs.randn(n)])[:, rs.permutation(d)]
+        Z = rs.randn(n, d) @ rs.randn(d, d)
+        i, j = rng.sample(range(d), 2)
+        Z[:, j] = Z[:, i]
+        yield 'duplicate', Z
+        Z = rs.randn(n, d) @ rs.randn(d, d)
+        Z[:, rng.randrange(d)] = 3.0
+        yield 'constant', Z
+
+
+def check_refused(ctx, X, vt, t, form, counts, prior=None, kind=''):
+    """A fit that is REFUSED.  On a never-fitted instance the model must not claim to be fitted afterwards
+    (fitted false, check_fit raises NotFittedError, to_dict()['fitted'] false); and whenever `fitted` is true the
+    structural oracle must hold for the requested type and depth.  On a previously fitted instance the unchanged
+    code keeps fitted=True next to partially rebuilt trees - counted, not flagged (reported to the coordinator)."""
+    from copulas.errors import NotFittedError
+    from copulas.multivariate.vine import VineCopula
+    d = X.shape[1]
+    key = lambda k: counts.__setitem__(k, counts.get(k, 0) + 1)  # noqa: E731
+    exc = None
+    try:
+        with time_limit(FIT_TIMEOUT_S * 2):
+            v = VineCopula(vt)
+            if prior is not None:
+                v.fit(prior[0], truncated=prior[1])
+            with capture_tree_fits() as log:
+                try:
+                    call_fit(v, X, t, form)
+                except FitTimeout:
+                    raise
+                except Exception as e:  # noqa
+                    exc = e
+    except FitTimeout:
+        key('refused-fit scenario timed out')
+        return False
+    except Exception:  # the PRIOR fit failed: not a scenario
+        return False
+    if exc is None:
+        key(f'refusal table not refused ({kind})')
+        return False
+    key('refused during the tree build' if log else 'refused before the tree build')
+    state = {'exception': f'{type(exc).__name__}: {str(exc)[:60]}', 'fitted': bool(v.fitted),
+             'trees': len(getattr(v, 'trees', []) or []), 'expected_trees_if_fitted': max(1, min(d - 1, t))}
+    try:
+        v.check_fit()
+        state['check_fit'] = 'passes'
+    except NotFittedError:
+        state['check_fit'] = 'NotFittedError'
+    except Exception as e:  # noqa
+        state['check_fit'] = type(e).__name__
+    try:
+        state['to_dict_fitted'] = bool(v.to_dict().get('fitted'))
+    except Exception as e:  # noqa
+        state['to_dict_fitted'] = type(e).__name__
+    claims = state['fitted'] or state['check_fit'] == 'passes' or state['to_dict_fitted'] is True
+    if prior is not None:
+        if claims and state['trees'] != state['expected_trees_if_fitted']:
+            key('previously fitted instance after a refused refit: fitted=True with a partial vine (not flagged)')
+        return False
+    if not claims:
+        key('fresh instance after a refused fit: not fitted (ok)')
+        return False
+    inp = dict(table_input(X, vt, t, (), form), scenario='refused-fit on a never-fitted instance', table_kind=kind)
+    counts['failures'] += 1
+    ctx.fail_input('VineCopula.fit (refused)', inp, state,
+                   'after a fit that raised, a never-fitted model does not claim to be fitted; whenever fitted is '
+                   'true the vine is a regular vine of the requested type and depth',
+                   'VineCopula.fit:fitted-true-after-refused-fit')
+    if state['fitted']:
+        try:
+            probs = oracle(v, vt, d, t, tau_b_matrix(X.to_numpy()))
+        except Exception as e:  # noqa
+            probs = [('structure-unreadable', {'error': f'{type(e).__name__}: {str(e)[:80]}'})]
+        seen = set()
+        for what, detail in probs:
+            if what not in seen:
+                seen.add(what)
+                ctx.fail_input('VineCopula.fit (refused)', inp, detail,
+                               'whenever fitted is true: a regular vine of the requested type and depth (C16)',
+                               f'VineCopula.fit[{vt}]:fitted-after-refused-fit:{what}')
+    return True
+
+
 def search(ctx, deep):
     rng = ctx.rng('search')
     counts = {'fits': 0, 'checked': 0, 'refused': 0, 'failures': 0}
@@ -1234,7 +1362,8 @@ def search(ctx, deep):
         X = relabel(rng, gen_table(rng, d, mode), COL_SCHEMES[(it + 2) % len(COL_SCHEMES)],
                     ROW_SCHEMES[(it + 1) % len(ROW_SCHEMES)])
         for vt in TYPES:
-            for t in ([rng.randint(1, d + 1)] if not deep else sorted({1, rng.randint(1, d), d - 1 if d > 2 else 1, d + 1})):
+            for t in ([1] if mode == 'antitone' else [rng.randint(1, d + 1)] if not deep
+                      else sorted({1, rng.randint(1, d), d - 1 if d > 2 else 1, d + 1})):
                 check_real(ctx, X, vt, t, counts, form=rng.choices(FORMS[:2] + FORMS[3:], (4, 4, 1))[0])
             if it % 3 == 0 or deep:                 # the same object fitted on another table first
                 kind, hist = gen_history(rng, X, d)
@@ -1250,6 +1379,22 @@ def search(ctx, deep):
                     counts['call-form fits'] = counts.get('call-form fits', 0) + 1
                     check_real(ctx, X, vt, t, counts, form=form)
             check_real(ctx, X, vt, DEFAULT_TRUNCATED, counts, form='default')
+    # Kendall taus of exactly -1 / +1 (sentinels of the direct tree must stay below every real tau): every order
+    for dd, k in (((4, None),) if not deep else ((4, None), (5, 40), (3, None))):
+        for X in antitone_tables(rng, dd, k):
+            X = relabel(rng, X)
+            for vt in (('direct',) if not deep else TYPES):
+                counts['tau=-1 fits'] = counts.get('tau=-1 fits', 0) + 1
+                check_real(ctx, X, vt, 1, counts, form=rng.choice(['keyword', 'positional']))
+    # refused fits: on a never-fitted instance and on a previously fitted one
+    for kind, Z in refusal_tables(rng, deep):
+        X = relabel(rng, pd.DataFrame(Z))
+        dd = X.shape[1]
+        for vt in TYPES:
+            form, t = pick_call(rng, dd)
+            check_refused(ctx, X, vt, t, form, counts, None, kind)
+            A = gen_table(rng, dd if rng.random() < 0.7 else max(2, dd - 1), 'plain')
+            check_refused(ctx, X, vt, t, form, counts, (A, rng.randint(1, A.shape[1])), kind)
     # two competing |tau| values 1e-9..6e-8 apart, every column order (MST clause with weights in double precision)
     for rep_ in range(1 if not deep else 6):
         for X in near_equal_tables(rng, 3 if rep_ % 2 == 0 else 4):
@@ -1265,6 +1410,10 @@ def replay(ctx, payload):
     X = dec_frame(inp)
     counts = {'fits': 0, 'checked': 0, 'refused': 0, 'failures': 0}
     before = len(ctx.failing)
+    if str(inp.get('scenario', '')).startswith('refused-fit'):
+        check_refused(ctx, X, inp['vine_type'], inp['truncated'], inp.get('call_form', 'keyword'), counts, None,
+                      inp.get('table_kind', ''))
+        return any(f['class'] == payload.get('class') for f in ctx.failing[before:])
     hist = [(dec_frame(h), h['truncated'], h.get('call_form', 'keyword'))
             for h in inp.get('fitted_before_on_the_same_object', [])]
     check_real(ctx, X, inp['vine_type'], inp['truncated'], counts, hist, inp.get('call_form', 'keyword'))
